@@ -345,6 +345,12 @@ func c24Check(h []c24Obs, limit int, lock time.Duration, lenient bool, probes *s
 						n.count++
 						n.last = o.t
 						if n.count >= limit && o.t >= n.until {
+							if o.t == n.until && n.until > 0 {
+								// a failure at exactly the instant the lockout ends: the statement does not say
+								// whether that instant still belongs to the lockout, so a new lockout may or
+								// may not start here (the count is kept either way)
+								next = append(next, n)
+							}
 							n.until = o.t + lock
 							if probes != nil {
 								probes.Probe("lockouts_started", 1)
